@@ -20,6 +20,29 @@ func init() {
   container sub { leaf x { type string; } }
   container other { leaf y { type string; } }
 }`
+	model.Schemas["accro"] = `module accro { namespace "urn:accro"; prefix accro; revision 0;
+  leaf label { type string; }
+  leaf keep { type string; }
+  container ro { leaf x { type string; } }
+}`
+}
+
+// c18AccRO: members that can be read but not written (no SetX method, no exported field). An
+// edit of such a member either fails or takes effect; it never reports success and does nothing.
+type c18AccRO struct {
+	label string
+	ro    *c18AccSub
+	Keep  string
+}
+
+func (a *c18AccRO) GetLabel() string  { return a.label }
+func (a *c18AccRO) GetRo() *c18AccSub { return a.ro }
+func (a *c18AccRO) String() string {
+	r := "<nil>"
+	if a.ro != nil {
+		r = "{x=" + a.ro.X + "}"
+	}
+	return fmt.Sprintf("{label=%q keep=%q ro=%s}", a.label, a.Keep, r)
 }
 
 type c18AccSub struct{ X string }
@@ -103,6 +126,37 @@ func c18RunAccessor() eng.Result {
 			case obj.String() != st.want:
 				res.Add(site+"/wrong-result", fmt.Sprintf("object is %s, want %s", obj, st.want))
 			}
+		}
+	}
+	mro := model.SharedSchema("accro")
+	for _, st := range []step{
+		{"delete-container-without-setter", func(b *node.Browser) error { return find(b, "ro").Delete() }, `{label="l" keep="k" ro=<nil>}`},
+		{"clear-leaf-without-setter", func(b *node.Browser) error {
+			n, _ := nodeutil.ReadJSON(`{"keep":"k2"}`)
+			return b.Root().ReplaceFrom(n)
+		}, `{label="" keep="k2" ro=<nil>}`},
+		{"upsert-leaf-without-setter", func(b *node.Browser) error {
+			n, _ := nodeutil.ReadJSON(`{"label":"new"}`)
+			return b.Root().UpsertFrom(n)
+		}, `{label="new" keep="k" ro={x=x}}`},
+		{"upsert-into-container-without-setter", func(b *node.Browser) error {
+			n, _ := nodeutil.ReadJSON(`{"ro":{"x":"new"}}`)
+			return b.Root().UpsertFrom(n)
+		}, `{label="l" keep="k" ro={x=new}}`},
+	} {
+		obj := &c18AccRO{label: "l", Keep: "k", ro: &c18AccSub{X: "x"}}
+		b := node.NewBrowser(mro, &nodeutil.Node{Object: obj})
+		var err error
+		fr, msg, pan := eng.Recover(func() { err = st.do(b) })
+		res.Evals++
+		res.Nontriv++
+		res.States++
+		site := "C18/accessor-struct/" + st.name
+		switch {
+		case pan:
+			res.Add(site+"/panic:"+fr, msg)
+		case err == nil && obj.String() != st.want:
+			res.Add(site+"/success-reported-nothing-done", fmt.Sprintf("no error, object is %s, the edit asks for %s", obj, st.want))
 		}
 	}
 	c18RootList(&res)
